@@ -578,7 +578,7 @@ def run(tier, seed):
     if tier == "thorough":
         scs3 = []
         for kind, procs in KINDS3.items():
-            for s in rng_schedules(rng, step_counts(procs), 150):
+            for s in rng_schedules(rng, step_counts(procs), 300):
                 scs3.append({"kind": kind, "procs": procs, "schedule": s})
         phase_controlled(res, scs3, "correspondence:conc-e2e 3 processes, up to 2 updates each, sampled schedules")
     mx = res.extra.get("model_max_events")
